@@ -320,6 +320,38 @@ func genFlow(t *Tape, name string) *Plan {
 	// subscriber first
 	g.Connect(0)
 	g.Subscribe(0)
+	if name == "C09" && t.Draw("c09.shape", 4) == 0 {
+		// lost-reply skeleton: a persistent subscriber acknowledges a QoS 1/2 delivery by hand while the broker's next
+		// write on that connection fails (the connection dies between the acknowledgement and the reply), then it
+		// resumes the session. What was published, which step of the exchange is hit and the tail are drawn.
+		first := len(g.plan.Ops)
+		for i := range g.plan.Ops {
+			if g.plan.Ops[i].Kind == "subscribe" && g.plan.Ops[i].Pkt != nil && len(g.plan.Ops[i].Pkt.Filters) > 0 {
+				g.plan.Ops[i].Pkt.Filters[0].Filter = "#"
+				g.plan.Ops[i].Pkt.Filters[0].Opts = g.plan.Ops[i].Pkt.Filters[0].Opts&^3 | 2
+			}
+			if g.plan.Ops[i].Kind == "connect" && g.plan.Ops[i].Pkt != nil {
+				g.plan.Ops[i].Pkt.CleanStart = false
+				g.plan.Ops[i].AckMode = 1
+			}
+		}
+		g.Connect(1)
+		for i, n := 0, 1+t.Draw("c09.npub", 2); i < n; i++ {
+			g.Publish(1)
+		}
+		for i, n := 0, t.Draw("c09.acksbefore", 2); i < n; i++ {
+			g.add(Op{Kind: "ack", Slot: 0, N: 0})
+		}
+		g.add(Op{Kind: "failwrite", Slot: 0, N: 0})
+		g.add(Op{Kind: "ack", Slot: 0, N: 0})
+		g.Drop(0)
+		ci := g.Connect(0)
+		g.plan.Ops[ci].Pkt.CleanStart = false
+		g.plan.Ops[ci].AckMode = 1
+		for i := first; i < len(g.plan.Ops); i++ {
+			g.plan.Ops[i].Concurrent = false
+		}
+	}
 	if name == "C11" && t.Draw("c11.shape", 4) == 0 {
 		// resumed-session skeleton: a client fills the server's Receive Maximum with QoS 2 publishes whose PUBREL it
 		// holds back, loses the connection, resumes the session and retransmits one of them (DUP): it is still
